@@ -1,5 +1,334 @@
-import Smooth.Model.Surface
+/-
+C06 — Early, late and every other differentiation route give the same answers.
+
+"A derivative object built with compute_early=True and one built with compute_early=False behave
+identically: for every expression, variable and point that supplies the expression's variables,
+Partial, Derivative, Differential.component(...).at, Differential.component_at,
+Differential.at(...).component and LocatedDifferential.component, early or late, with the variable
+given as object or as name, all return the same number or all raise DomainError, and early and late
+as_expression() results are equal expressions.  Differential(e).component(v) equals Partial(e, v) and
+Differential(e).at(p) equals LocatedDifferential(e, p)."
+
+The thirteen numeric routes (`routePL … routeLD`) and the six `as_expression()` routes
+(`routeExprP …`) are defined in Proofs/Routes.lean exactly as the native driver composes them from
+the object functions of Model/Objects.lean:
+
+  PL  Partial(e,x).at(p)                       PE  Partial(e,x,early).at(p)
+  PA  P = Partial(e,x); P.as_expression(); P.at(p)
+  DL / DE / DA   the same three for Derivative(e)   (single variable)
+  FCL / FCE      Differential(e[,early]).component(x).at(p)
+  FCAL / FCAE    Differential(e[,early]).component_at(x, p)
+  FATL / FATE    Differential(e[,early]).at(p).component(x)
+  LD             LocatedDifferential(e, p).component(x)
+
+(In the model a variable is always given by its name; the conversion of a `Variable` object to its
+name happens before the object layer and is not a separate route of the model.)
+
+`truePartial p x e` is `deriv (fun t => ⟦e⟧(ρ[x ↦ t])) (ρ x)` with `ρ = valOf p` (Proofs/TruePartial).
+
+What is proved, and under which side conditions:
+
+* ON the domain every route returns `.ok (truePartial p x e)` — for the routes through a stored,
+  simplified expression under the K1 side condition (`NormOK K1FreeAt …`: the rewriter's run performs
+  no even/even `NthRoot(NthPower(·))` rewrite, the one unsound rule, see C05/C08) and "enough fuel"
+  (`normalize … = some _`; the model's `normalize` is fuel-indexed).  The statement WITHOUT the K1
+  hypothesis is false: `routes_disagree_under_K1`.  Hence the suffix `_partial`.
+* OFF the domain every route returns `.error .domain` — no K1 hypothesis at all, only fuel (building
+  an early object runs the rewriter even off the domain; that can fail only for lack of fuel).
+* Unconditionally and for every number instance: PA = PE, FCE = FCAE, the `as_expression()` results
+  of early and late `Partial` / `Derivative` coincide (same expression, same warning, same failure),
+  `Differential(e).component(x)` is `Partial(e, x)`.
+* `Differential(e).at(p)` IS `LocatedDifferential(e, p)` (late: at every supplying point; early: on
+  the domain outside K1).
+* K2 (recorded finding): early and late `Differential` components are NOT equal expressions in
+  general — witness `Sine(Negation(y))` — but they denote the same function on the original's domain.
+
+Proofs: Proofs/Routes.lean; the replayed rewriter runs: Proofs/RoutesRun.lean.
+-/
+import Smooth.Proofs.Routes
+import Smooth.Proofs.RoutesRun
+
 namespace Smooth
-/-- placeholder while the property file is being written -/
-theorem C06_placeholder : (1 : Nat) = 1 := rfl
+open Expr
+
+/-! ## 1. on the domain -/
+
+/-
+FULL STATEMENT (what the property text asks for; FALSE for the code as it is because of K1, see
+`routes_disagree_under_K1`):
+
+  theorem routes_agree_on_domain (p) (x) (e) (hwf : WF e) (hs : Supp p e) (hd : Dom (valOf p) e)
+      (fuel hypotheses) : AllPartialRoutes realNum e x p (.ok (truePartial p x e))
+
+PROVED: the same with the two K1 side conditions `hK1f`, `hK1r`.  What is missing for the full
+statement is exactly the soundness of the one rule instance K1, which does not hold.
+-/
+
+/-- **C06 on the domain.**  At a supplied point of the domain, outside K1 and with enough fuel, all
+ten routes that take a variable name — `Partial` late / early / after `as_expression()`,
+`Differential.component(x).at` late / early, `component_at` late / early, `.at(p).component(x)`
+late / early, `LocatedDifferential.component` — return the same number: the true partial derivative
+(for every name `x`, a variable of `e` or not). -/
+theorem routes_agree_on_domain_partial (p : Point ℝ) (x : String) (e : Expr ℝ) (hwf : WF e)
+    (hs : Supp p e) (hd : Dom (valOf p) e)
+    (hK1f : NormOK K1FreeAt REDUCTION_STEPS_BOUND NORMALIZE_FUEL (symFwd realNum x e))
+    (hfuelf : ∃ r, normalize realNum (symFwd realNum x e) = some r)
+    (hK1r : ∀ y s, SAcc.get? (syntheticPartials realNum e) y = some s →
+      NormOK K1FreeAt REDUCTION_STEPS_BOUND NORMALIZE_FUEL s)
+    (hfuelr : ∀ y s, SAcc.get? (syntheticPartials realNum e) y = some s →
+      ∃ r, normalize realNum s = some r) :
+    AllPartialRoutes realNum e x p (.ok (truePartial p x e)) :=
+  routes_all_on x hwf hs hd hK1f hfuelf hK1r hfuelr
+
+/-- the numeric routes need no side condition at all -/
+theorem numeric_routes_agree_on_domain (p : Point ℝ) (x : String) (e : Expr ℝ) (hwf : WF e)
+    (hs : Supp p e) (hd : Dom (valOf p) e) :
+    routePL realNum e x p = .ok (truePartial p x e) ∧
+      routeFCL realNum e x p = .ok (truePartial p x e) ∧
+      routeFCAL realNum e x p = .ok (truePartial p x e) ∧
+      routeFATL realNum e x p = .ok (truePartial p x e) ∧
+      routeLD realNum e x p = .ok (truePartial p x e) :=
+  ⟨routes_PL_on x hwf hs hd, routes_FCL_on x hwf hs hd, routes_FCAL_on x hwf hs hd,
+    routes_FATL_on x hwf hs hd, routes_LD_on x hwf hs hd⟩
+
+/-- **C06 on the domain, `Derivative`.**  For an expression with at most one variable
+(`singleVarName e = .ok x`: `x` is that variable, or the placeholder name when there is none) the
+three `Derivative` routes return the true partial with respect to `x`, too. -/
+theorem derivative_routes_agree_on_domain_partial (p : Point ℝ) (x : String) (e : Expr ℝ)
+    (hwf : WF e) (hs : Supp p e) (hd : Dom (valOf p) e) (hx : singleVarName e = .ok x)
+    (hK1f : NormOK K1FreeAt REDUCTION_STEPS_BOUND NORMALIZE_FUEL (symFwd realNum x e))
+    (hfuelf : ∃ r, normalize realNum (symFwd realNum x e) = some r) :
+    AllDerivativeRoutes realNum e p (.ok (truePartial p x e)) :=
+  routes_all_derivative_on x hwf hs hd hx hK1f hfuelf
+
+/-- `singleVarName e = .ok x` means: at most one variable, and it is `x` -/
+theorem single_variable_name_ok (e : Expr ℝ) (x : String) (hx : singleVarName e = .ok x) :
+    e.vars.length ≤ 1 ∧ ∀ y ∈ e.vars, y = x :=
+  routes_singleVarName_ok hx
+
+/-- with two or more variables there is no `Derivative`: the three routes raise the same (usage)
+error, at construction -/
+theorem derivative_routes_usage_error {α : Type} (N : Num α) (e : Expr α) (p : Point α) (err : Err)
+    (hx : singleVarName e = .error err) : AllDerivativeRoutes N e p (.error err) :=
+  routes_all_derivative_usage N e p err hx
+
+/-- **K1: the side condition cannot be dropped.**  `e = NthRoot(NthPower(x, 2), 2)` (= |x|) at
+`x = -3`, a supplied point of the domain: the late `Partial` answers `-1` (the true partial), the
+early `Partial` and the late one after `as_expression()` answer `+1`. -/
+theorem routes_disagree_under_K1 :
+    routePL realNum (mkNRoot (mkNPow (mkVar "x") 2) 2) "x" [("x", (-3 : ℝ))] = .ok (-1) ∧
+      routePE realNum (mkNRoot (mkNPow (mkVar "x") 2) 2) "x" [("x", (-3 : ℝ))] = .ok 1 ∧
+      routePA realNum (mkNRoot (mkNPow (mkVar "x") 2) 2) "x" [("x", (-3 : ℝ))] = .ok 1 :=
+  runK1_routes_disagree
+
+/-! ## 2. off the domain -/
+
+/-- **C06 off the domain.**  At a supplied point outside the domain all ten routes raise
+`DomainError` — with NO K1 hypothesis: the routes through a stored expression evaluate the original
+first, the numeric ones fail by C07.  The fuel hypotheses are needed because building an early object
+runs the rewriter even off the domain. -/
+theorem routes_agree_off_domain (p : Point ℝ) (x : String) (e : Expr ℝ) (hwf : WF e)
+    (hs : Supp p e) (hnd : ¬ Dom (valOf p) e)
+    (hfuelf : ∃ r, normalize realNum (symFwd realNum x e) = some r)
+    (hfuelr : ∀ y s, SAcc.get? (syntheticPartials realNum e) y = some s →
+      ∃ r, normalize realNum s = some r) :
+    AllPartialRoutes realNum e x p (.error .domain) :=
+  routes_all_off x hwf hs hnd hfuelf hfuelr
+
+theorem derivative_routes_agree_off_domain (p : Point ℝ) (x : String) (e : Expr ℝ) (hwf : WF e)
+    (hs : Supp p e) (hnd : ¬ Dom (valOf p) e) (hx : singleVarName e = .ok x)
+    (hfuelf : ∃ r, normalize realNum (symFwd realNum x e) = some r) :
+    AllDerivativeRoutes realNum e p (.error .domain) :=
+  routes_all_derivative_off x hwf hs hnd hx hfuelf
+
+/-- constructing an early object can fail only for lack of fuel (never with a domain, missing or
+usage error), on or off the domain, for every number instance -/
+theorem early_construction_fails_only_for_fuel {α : Type} (N : Num α) (e : Expr α) (x : String)
+    (err : Err) :
+    (PartialObj.new N e x true = .error err → err = .fuel) ∧
+      (DifferentialObj.new N e true = .error err → err = .fuel) :=
+  ⟨routes_partialNew_early_error N e x err, routes_differentialNew_early_error N e err⟩
+
+/-! ## 3. identities that hold for every number instance, point and expression -/
+
+/-- a late `Partial` after `as_expression()` behaves exactly like an early one: same answer, same
+error, whatever the point -/
+theorem partial_after_as_expression_is_early {α : Type} (N : Num α) (e : Expr α) (x : String)
+    (p : Point α) : routePA N e x p = routePE N e x p :=
+  routePA_eq_routePE N e x p
+
+/-- `component(x).at(p)` is `component_at(x, p)` -/
+theorem component_then_at_is_component_at {α : Type} (N : Num α) (e : Expr α) (x : String)
+    (p : Point α) :
+    routeFCE N e x p = routeFCAE N e x p ∧ routeFCL N e x p = routeFCAL N e x p :=
+  ⟨rfl, rfl⟩
+
+/-- the `Derivative` routes are the `Partial` routes in the single variable -/
+theorem derivative_routes_are_partial_routes {α : Type} (N : Num α) (e : Expr α) (p : Point α) :
+    routeDL N e p = (do let x ← singleVarName e; routePL N e x p) ∧
+      routeDE N e p = (do let x ← singleVarName e; routePE N e x p) ∧
+      routeDA N e p = (do let x ← singleVarName e; routePA N e x p) :=
+  ⟨routeDL_eq N e p, routeDE_eq N e p, routeDA_eq N e p⟩
+
+/-- **`as_expression()` : early = late.**  `Partial(e, x, compute_early=True).as_expression()` and
+`Partial(e, x).as_expression()` return the same expression (both are `_retrieve_synthetic_partial`),
+with the same warning, or fail alike. -/
+theorem partial_asExpression_early_eq_late {α : Type} (N : Num α) (e : Expr α) (x : String) :
+    routeExprPE N e x = routeExprP N e x :=
+  routes_partial_asExpression_early_eq_late N e x
+
+/-- the same for `Derivative` -/
+theorem derivative_asExpression_early_eq_late {α : Type} (N : Num α) (e : Expr α) :
+    routeExprDE N e = routeExprD N e :=
+  routes_derivative_asExpression_early_eq_late N e
+
+/-- … and after the call the late object is in exactly the state of the early one -/
+theorem partial_objects_early_late {α : Type} (N : Num α) (e : Expr α) (x : String) :
+    (do let (P, w) ← PartialObj.new N e x true
+        let (s, P', _) ← P.asExpression N
+        pure (s, P', w)) =
+    (do let (P, _) ← PartialObj.new N e x false
+        P.asExpression N) :=
+  routes_partial_objects_early_late N e x
+
+/-! ## 4. object equalities -/
+
+/-- `Differential(e).component(x)` equals `Partial(e, x)` -/
+theorem differential_component_late_is_partial {α : Type} (N : Num α) (e : Expr α) (x : String) :
+    (DifferentialObj.mk e none).component N x = PartialObj.new N e x false :=
+  routes_component_late N e x
+
+/-- `Differential(e).at(p)` equals `LocatedDifferential(e, p)` at every point that supplies `e`: the
+same object on the domain, the same `DomainError` off it -/
+theorem differential_late_at_is_located (p : Point ℝ) (e : Expr ℝ) (hwf : WF e) (hs : Supp p e) :
+    (DifferentialObj.mk e none).at realNum p = LocatedObj.new realNum e p :=
+  routes_differential_late_at p e hwf hs
+
+/-- `Differential(e, compute_early=True).at(p)` equals `LocatedDifferential(e, p)` on the domain,
+outside K1: evaluating the stored components gives the very dictionary reverse mode computes -/
+theorem differential_early_at_is_located_partial (p : Point ℝ) (e : Expr ℝ) (hwf : WF e)
+    (hs : Supp p e) (hd : Dom (valOf p) e)
+    (hK1r : ∀ y s, SAcc.get? (syntheticPartials realNum e) y = some s →
+      NormOK K1FreeAt REDUCTION_STEPS_BOUND NORMALIZE_FUEL s)
+    (D : DifferentialObj ℝ) (w : Bool) (hnew : DifferentialObj.new realNum e true = .ok (D, w)) :
+    D.at realNum p = LocatedObj.new realNum e p :=
+  routes_differential_early_at hwf hs hd hK1r hnew
+
+/-- that dictionary: `{y : ∂e/∂y  for y in e.vars}` -/
+theorem numeric_partials_on_domain (p : Point ℝ) (e : Expr ℝ) (hwf : WF e) (hs : Supp p e)
+    (hd : Dom (valOf p) e) :
+    numericPartials realNum p e = .ok (e.vars.map fun y => (y, truePartial p y e)) :=
+  routes_numericPartials_on hwf hs hd
+
+/-! ## 5. K2 : early and late `Differential` components
+
+FULL STATEMENT asked for by the property text ("early and late as_expression() results are equal
+expressions"), for `Differential` components:
+
+  routeExprFE realNum e x = routeExprFL realNum e x
+
+FALSE (recorded finding K2, `differential_asExpression_K2_witness`): the early object stores the
+normalised REVERSE-symbolic component, the late one computes the normalised FORWARD-symbolic partial;
+the two raw trees differ and so can their normal forms.  What IS true: -/
+
+/-- **K2 replacement.**  Outside K1, the expression the early `Differential` returns for a component
+and the one the late `Differential` returns both evaluate to the true partial derivative at every
+supplied point of the original's domain: they denote the same function there. -/
+theorem differential_asExpression_same_meaning_partial (e : Expr ℝ) (x : String) (hwf : WF e)
+    (hK1f : NormOK K1FreeAt REDUCTION_STEPS_BOUND NORMALIZE_FUEL (symFwd realNum x e))
+    (hK1r : ∀ y s, SAcc.get? (syntheticPartials realNum e) y = some s →
+      NormOK K1FreeAt REDUCTION_STEPS_BOUND NORMALIZE_FUEL s)
+    (s₁ s₂ : Expr ℝ) (w₁ w₂ : Bool)
+    (h₁ : routeExprFE realNum e x = .ok (s₁, w₁)) (h₂ : routeExprFL realNum e x = .ok (s₂, w₂))
+    (p : Point ℝ) (hs : Supp p e) (hd : Dom (valOf p) e) :
+    evalG realNum p s₁ = .ok (truePartial p x e) ∧ evalG realNum p s₂ = .ok (truePartial p x e) :=
+  routes_K2_same_meaning x hwf hK1f hK1r h₁ h₂ p hs hd
+
+/-- the late `Differential`'s component expression is the late `Partial`'s -/
+theorem differential_late_asExpression_is_partial {α : Type} (N : Num α) (e : Expr α) (x : String) :
+    routeExprFL N e x = routeExprP N e x :=
+  routes_differential_late_asExpression N e x
+
+/-- **K2 witness.**  For `e = Sine(Negation(y))` the early `Differential` returns
+`Negation(Cosine(y))` for the component `y` (reverse symbolic route: 8 rewriter steps replayed over
+the reals), the late one returns `Multiply(Cosine(y), Constant(-1))` (forward symbolic route: 7
+steps): different trees — although all K1 and fuel hypotheses hold, so both denote `-cos y`. -/
+theorem differential_asExpression_K2_witness :
+    routeExprFE realNum (mkSin (mkNeg (mkVar "y"))) "y" = .ok (mkNeg (mkCos (mkVar "y")), false) ∧
+      routeExprFL realNum (mkSin (mkNeg (mkVar "y"))) "y" =
+        .ok (mkMul [mkCos (mkVar "y"), mkConst (-1)], false) ∧
+      (mkNeg (mkCos (mkVar "y")) : Expr ℝ) ≠ mkMul [mkCos (mkVar "y"), mkConst (-1)] ∧
+      routeExprFE realNum (mkSin (mkNeg (mkVar "y"))) "y" ≠
+        routeExprFL realNum (mkSin (mkNeg (mkVar "y"))) "y" := by
+  refine ⟨runK2_exprFE, runK2_exprFL, runK2_trees_differ, ?_⟩
+  rw [runK2_exprFE, runK2_exprFL]
+  intro h
+  injection h with h
+  injection h with h _
+  exact runK2_trees_differ h
+
+/-! ## non-vacuity -/
+
+/-- all hypotheses of `routes_agree_on_domain_partial` hold for the two-variable product `x * y`
+(variable `x`) at a point listing the coordinates in another order: the forward symbolic partial
+`Add(Multiply(1, y), Multiply(0, x))` is normalised in 10 steps (rules `mulOnes`, `mulZero`,
+`addZeros`), each reverse component in 4 -/
+example :
+    let e : Expr ℝ := mkMul [mkVar "x", mkVar "y"]
+    let p : Point ℝ := [("y", 2), ("x", 3)]
+    WF e ∧ Supp p e ∧ Dom (valOf p) e ∧
+      NormOK K1FreeAt REDUCTION_STEPS_BOUND NORMALIZE_FUEL (symFwd realNum "x" e) ∧
+      (∃ r, normalize realNum (symFwd realNum "x" e) = some r) ∧
+      (∀ y s, SAcc.get? (syntheticPartials realNum e) y = some s →
+        NormOK K1FreeAt REDUCTION_STEPS_BOUND NORMALIZE_FUEL s) ∧
+      (∀ y s, SAcc.get? (syntheticPartials realNum e) y = some s →
+        ∃ r, normalize realNum s = some r) :=
+  ⟨by simp [WF, WFList], by simp [Supp, SuppList, Point.get?], by simp [Dom, DomList],
+    runXY_K1Fwd, runXY_fuelFwd, runXY_K1Rev, runXY_fuelRev⟩
+
+/-- … so the theorem applies: e.g. the early `Differential.at(p).component("x")` of `x * y` at
+`(x, y) = (3, 2)` is the true partial -/
+example : routeFATE realNum (mkMul [mkVar "x", mkVar "y"]) "x" [("y", 2), ("x", 3)] =
+    .ok (truePartial [("y", 2), ("x", 3)] "x" (mkMul [mkVar "x", mkVar "y"])) :=
+  (routes_agree_on_domain_partial _ "x" _ (by simp [WF, WFList]) (by simp [Supp, SuppList, Point.get?])
+    (by simp [Dom, DomList]) runXY_K1Fwd runXY_fuelFwd runXY_K1Rev runXY_fuelRev).FATE
+
+/-- all hypotheses of the on-domain AND the off-domain theorems (`Partial`/`Differential` and
+`Derivative` forms) hold for `Reciprocal(y)`: `y = 2` is a supplied point of the domain, `y = 0` a
+supplied point outside it; raw forward and reverse partials are `Negation(Divide(1, NthPower(y, 2)))`,
+normalised in 8 steps (rules `divToMul`, `mulOnes`) to `Negation(Reciprocal(NthPower(y, 2)))` -/
+example :
+    let e : Expr ℝ := mkRecip (mkVar "y")
+    WF e ∧ Supp [("y", (2 : ℝ))] e ∧ Dom (valOf [("y", (2 : ℝ))]) e ∧
+      Supp [("y", (0 : ℝ))] e ∧ ¬ Dom (valOf [("y", (0 : ℝ))]) e ∧
+      singleVarName e = .ok "y" ∧
+      NormOK K1FreeAt REDUCTION_STEPS_BOUND NORMALIZE_FUEL (symFwd realNum "y" e) ∧
+      (∃ r, normalize realNum (symFwd realNum "y" e) = some r) ∧
+      (∀ y s, SAcc.get? (syntheticPartials realNum e) y = some s →
+        NormOK K1FreeAt REDUCTION_STEPS_BOUND NORMALIZE_FUEL s) ∧
+      (∀ y s, SAcc.get? (syntheticPartials realNum e) y = some s →
+        ∃ r, normalize realNum s = some r) :=
+  ⟨by simp [WF], by simp [Supp, Point.get?], by simp [Dom, den, valOf, Point.get?],
+    by simp [Supp, Point.get?], by simp [Dom, den, valOf, Point.get?],
+    by simp [singleVarName, vars, varsAux, pure, Except.pure],
+    runRc_K1Fwd, runRc_fuelFwd, runRc_K1Rev, runRc_fuelRev⟩
+
+/-- the hypotheses of the K2 replacement hold for the K2 witness itself -/
+example :
+    let e : Expr ℝ := mkSin (mkNeg (mkVar "y"))
+    WF e ∧ Supp [("y", (2 : ℝ))] e ∧ Dom (valOf [("y", (2 : ℝ))]) e ∧
+      NormOK K1FreeAt REDUCTION_STEPS_BOUND NORMALIZE_FUEL (symFwd realNum "y" e) ∧
+      (∀ y s, SAcc.get? (syntheticPartials realNum e) y = some s →
+        NormOK K1FreeAt REDUCTION_STEPS_BOUND NORMALIZE_FUEL s) :=
+  ⟨by simp [WF], by simp [Supp, Point.get?], by simp [Dom], runK2_K1Fwd, runK2_K1Rev⟩
+
+/-- an early object really is built in these examples (the constructions do not fail) -/
+example : DifferentialObj.new realNum (mkMul [mkVar "x", mkVar "y"] : Expr ℝ) true =
+    .ok (⟨mkMul [mkVar "x", mkVar "y"], some [("x", mkVar "y"), ("y", mkVar "x")]⟩, false) :=
+  symrevEx_differential "x" "y" (by decide)
+
+/-- an expression with two variables: the hypothesis of `derivative_routes_usage_error` -/
+example : singleVarName (mkMul [mkVar "x", mkVar "y"] : Expr ℝ) = .error .usage := by
+  simp [singleVarName, vars, varsAux, varsAuxList, throw, throwThe, MonadExceptOf.throw]
+
 end Smooth
